@@ -460,9 +460,17 @@ func Point(op *Op) Result {
 		runtime.Goexit()
 	}
 	me.op = op
+	if OnPoint != nil {
+		OnPoint()
+	}
 	dispatch(me)
 	return me.res
 }
+
+// OnPoint, if set, is called at every decision point before the next transition is chosen
+// (the caller's thread is the only one running): harnesses use it to sample state that
+// only exists between two observable events.
+var OnPoint func()
 
 func chanReady(t *Thread, i int, c Case, alts *[]Alt) int {
 	if !c.Ch.IsValid() || c.Ch.IsNil() {
